@@ -45,6 +45,10 @@ func (w *World) streamErrOrigin(t *Term) (string, bool) {
 		}
 		return "", false
 	}
+	// the method value of a stream method called as a function (streamfv.go)
+	if rt, m, ok := boundStreamWrapper(c.Call.StaticCallee()); ok {
+		return "(" + typeStr(rt) + ")." + m, true
+	}
 	sc := c.Call.StaticCallee()
 	if sc == nil || w.inPkg(sc) {
 		return "", false
@@ -134,8 +138,8 @@ func (w *World) ruleRuneFill(r *Report, rule string, fn *ssa.Function) {
 		onInstr: func(fr *pxFrame, in ssa.Instruction, st *pxState) bool {
 			switch x := in.(type) {
 			case *ssa.Call:
-				if x.Call.IsInvoke() && isStreamType(x.Call.Value.Type()) {
-					st.trace = append(st.trace, pxEvent{Kind: "read", Call: x, Extra: x.Call.Method.Name() + "|" + px.term(x, fr, st).key, Pos: w.instrPos(x)})
+				if _, method, isRead := w.streamReadCall(x, px, fr, st); isRead {
+					st.trace = append(st.trace, pxEvent{Kind: "read", Call: x, Extra: method + "|" + px.term(x, fr, st).key, Pos: w.instrPos(x)})
 				}
 			case *ssa.Store:
 				if ia, isIA := x.Addr.(*ssa.IndexAddr); isIA && px.term(ia.X, fr, st).key == bk {
